@@ -445,6 +445,6 @@ MANIFEST = {
             "values around the file length; the yielded sequence is compared with the file's own lines and each database with "
             "a reference import through an independent sqlite reader; one-shot sources log every pull so that a dropped, "
             "duplicated or reordered item is seen directly; a recording transform proves exactly-once application and "
-            "skip-iff-falsy; inspect() is compared with a Counter over the model.",
+            "skip-iff-falsy; inspect() is compared with a Counter over the model. Sparse-regime annotations (where the reference vote recovers the dialect) are compared across forms as well, with Feature lists built line by line; gzip files are partly multi-member; values may contain ', ' and characters that str.splitlines() takes for line ends.",
     "note": "Trusted: the uniform-regime generator. Held = every executed (annotation, form, checklines) combination agreed.",
 }
